@@ -86,6 +86,8 @@ func newReport(res *simrt.Result) *Report {
 	} else if len(res.Stuck) > 0 {
 		r.Infra = fmt.Sprintf("tasks could not be shut down: %v", res.Stuck)
 		r.Inconclusive = "infra"
+	} else if res.Livelock {
+		r.Violations = append(r.Violations, simrt.Violation{Rule: "livelock", Detail: fmt.Sprintf("more than 300000 scheduler steps were taken without the simulated clock advancing (a retry or wake-up loop that never waits); live tasks: %v", res.Blocked), Step: res.Steps})
 	} else if res.StepCap {
 		r.Inconclusive = "step-cap"
 	} else if res.SimCap {
@@ -168,6 +170,7 @@ var (
 	fHashes   = flag.Bool("hashes", false, "include per-seed log hashes in the summary (determinism self-test)")
 	fVerbose  = flag.Bool("v2", false, "print the event log of every run")
 	fShrink   = flag.Int("shrink", 400, "maximum runs spent minimising a violation")
+	fShrinkS  = flag.Int("shrinksec", 15, "maximum wall-clock seconds spent minimising a violation")
 )
 
 // Replay is the on-disk form of a violation.
@@ -322,10 +325,11 @@ func minimiseAndWrite(t *testing.T, scn Scenario, seed uint64, plan any, rep *Re
 	cur := plan
 	curRep := rep
 	improved := true
-	for improved && budget > 0 {
+	deadline := time.Now().Add(time.Duration(*fShrinkS) * time.Second)
+	for improved && budget > 0 && time.Now().Before(deadline) {
 		improved = false
 		for _, cand := range scn.Shrink(cur) {
-			if budget <= 0 {
+			if budget <= 0 || !time.Now().Before(deadline) {
 				break
 			}
 			// same seed first, then a few neighbours: a smaller plan shifts the schedule
